@@ -18,13 +18,15 @@ type Config struct {
 	MaxDecisions  int   // symbolic decisions per path
 	AllocBudget   int64 // elements per single allocation
 	MaxConcretize int   // distinct values explored per concretisation site
+	AllocSplit    int   // allocation sizes up to this are case-split, larger ones get one representative
 	MapOrderMax   int   // explore all iteration orders for maps with <= this many entries
 	Params        map[string]int64
 	Trace         bool
+	Profile       map[string]int // if non-nil: SSA instructions per function (single worker only)
 }
 
 func DefaultConfig() Config {
-	return Config{MaxSteps: 2_000_000, MaxDepth: 200, MaxDecisions: 4000, AllocBudget: 1 << 16, MaxConcretize: 64, MapOrderMax: 3, Params: map[string]int64{}}
+	return Config{MaxSteps: 2_000_000, MaxDepth: 200, MaxDecisions: 4000, AllocBudget: 1 << 26, MaxConcretize: 320, AllocSplit: 16, MapOrderMax: 3, Params: map[string]int64{}}
 }
 
 // Decision is one element of a trail.
@@ -33,6 +35,7 @@ type Decision struct {
 	Choice int    // branch: 1 = true; concretise: 1 = equals Val; choose: index
 	Val    uint64 // concretise: candidate value
 	Known  bool   // feasibility already established when the trail was queued
+	Model  map[string]uint64 // on the last element of a queued trail: a model of the path condition up to and including it
 }
 
 // Input is one nondeterministic value handed to the harness (in call order).
@@ -110,6 +113,15 @@ type Machine struct {
 func (m *Machine) global(g *ssa.Global) *value {
 	if p, ok := m.globals[g]; ok {
 		return p
+	}
+	if g.Pkg != nil {
+		path := g.Pkg.Pkg.Path()
+		if !m.prog.isTargetPkg(path) && !m.prog.initAllow[path] && path != "errors" && path != "internal/cpu" {
+			if path == "unicode" {
+				panic(unsupported{"read of unicode table " + g.Name() + " (package init is skipped)"})
+			}
+			m.note("global " + path + "." + g.Name() + " read; its package init is skipped (zero value used)")
+		}
 	}
 	cell := zero(deref(g.Type()))
 	p := &cell
@@ -212,6 +224,10 @@ func (m *Machine) nextDecision() (Decision, bool) {
 	if m.pos < len(m.trail) {
 		d := m.trail[m.pos]
 		m.pos++
+		if d.Model != nil && m.pos == len(m.trail) {
+			m.model = d.Model
+			m.trail[m.pos-1].Model = nil
+		}
 		return d, true
 	}
 	if len(m.trail) >= m.cfg.MaxDecisions {
@@ -261,7 +277,7 @@ func (m *Machine) decide(cond value, why string) bool {
 	if cur {
 		other = m.ctx.Not(t)
 	}
-	ro := m.check(other)
+	ro, omodel := m.checkModel(other)
 	if ro == smt.Unknown {
 		m.note("solver unknown on branch (" + why + "); direction kept")
 	}
@@ -270,7 +286,7 @@ func (m *Machine) decide(cond value, why string) bool {
 		choice = 1
 	}
 	if ro != smt.Unsat {
-		m.queueAlt(Decision{Kind: 'b', Choice: 1 - choice, Known: ro == smt.Sat})
+		m.queueAlt(Decision{Kind: 'b', Choice: 1 - choice, Known: ro == smt.Sat, Model: omodel})
 	}
 	m.record(Decision{Kind: 'b', Choice: choice})
 	if cur {
@@ -312,8 +328,8 @@ func (m *Machine) concretize(v value, why string) value {
 		m.ensureModel(why)
 		val := smt.Eval(s.t, m.model)
 		cv := m.ctx.BV(val, s.t.W)
-		if other := m.check(m.ctx.Ne(s.t, cv)); other != smt.Unsat {
-			m.queueAlt(Decision{Kind: 'c', Choice: 0, Val: val, Known: other == smt.Sat})
+		if other, omodel := m.checkModel(m.ctx.Ne(s.t, cv)); other != smt.Unsat {
+			m.queueAlt(Decision{Kind: 'c', Choice: 0, Val: val, Known: other == smt.Sat, Model: omodel})
 		}
 		m.record(Decision{Kind: 'c', Choice: 1, Val: val})
 		m.assume(m.ctx.Eq(s.t, cv))
@@ -321,9 +337,42 @@ func (m *Machine) concretize(v value, why string) value {
 	}
 }
 
+// representative fixes a symbolic scalar to one feasible value without
+// exploring the others (used where the value cannot influence control flow
+// inside the encoded code, e.g. float payloads); noted in the evidence.
+func (m *Machine) representative(v value, what string) value {
+	s, ok := v.(symv)
+	if !ok {
+		return v
+	}
+	m.ensureModel(what)
+	val := smt.Eval(s.t, m.model)
+	m.assume(m.ctx.Eq(s.t, m.ctx.BV(val, s.t.W)))
+	m.note("one representative value explored for " + what)
+	return fromBits(s.k, val)
+}
+
 // concretizeRange is concretize for values that index/size memory.
 func (m *Machine) concretizeRange(v value, why string) value {
-	return m.concretize(v, why)
+	s, ok := v.(symv)
+	if !ok || s.k == types.Bool {
+		return m.concretize(v, why)
+	}
+	// values up to the split bound are case-split exhaustively; larger ones
+	// are explored for one representative (only memory shape depends on them;
+	// the code's own bounds checks were already decided symbolically)
+	k := uint64(m.cfg.MaxConcretize / 2)
+	w := s.t.W
+	var small *smt.Term
+	if kindSigned(s.k) {
+		small = m.ctx.And(m.ctx.Cmp(smt.OpSle, m.ctx.BV(0, w), s.t), m.ctx.Cmp(smt.OpSle, s.t, m.ctx.BV(k, w)))
+	} else {
+		small = m.ctx.Cmp(smt.OpUle, s.t, m.ctx.BV(k, w))
+	}
+	if m.decide(mkScalar(small, types.Bool), why+"-small") {
+		return m.concretize(v, why)
+	}
+	return m.representative(v, why+" above split bound")
 }
 
 // choose is an engine-level n-way fork with no solver involvement (used for
@@ -339,7 +388,14 @@ func (m *Machine) choose(n int, why string) int {
 		return d.Choice
 	}
 	for i := 1; i < n; i++ {
-		m.queueAlt(Decision{Kind: 'n', Choice: i, Known: true})
+		var cp map[string]uint64
+		if m.model != nil {
+			cp = make(map[string]uint64, len(m.model))
+			for k, v := range m.model {
+				cp[k] = v
+			}
+		}
+		m.queueAlt(Decision{Kind: 'n', Choice: i, Known: true, Model: cp})
 	}
 	m.record(Decision{Kind: 'n', Choice: 0})
 	return 0
